@@ -196,6 +196,35 @@ def conjunction(o1: int, v1: int, o2: int, v2: int, x: int, y: int, x2: int) -> 
     return both == exp and both == [k for k in one if k in two] and none == [0, 1] and all(k in one for k in both)
 
 
+def conjunction_same_property(o1: int, v1: int, o2: int, v2: int, a: int, b: int, n: int, kind: int) -> bool:
+    """
+    pre: 0 <= o1 < 6 and 0 <= o2 < 6 and 1 <= n <= 2 and kind == PARTNO
+    post: _
+    """
+    # two (or three) filters naming the SAME property: scalar, list-valued, or a dotted path through a list of dictionaries.  A conjunction
+    # is the intersection of its parts whatever the filters look like together (two '=' with different values are satisfiable on a list).
+    vals = [a, b][:n]
+    if kind == 0:
+        obj, path = {"type": "t", "x": a, "k": 0}, "x"
+        vals = [a]
+    elif kind == 1:
+        obj, path = {"type": "t", "x": vals, "k": 0}, "x"
+    else:
+        obj, path = {"type": "t", "refs": [{"n": v} for v in vals], "k": 0}, "refs.n"
+    other = {"type": "t", "k": 1}
+    f1, f2 = Filter(path, OPS[o1], v1), Filter(path, OPS[o2], v2)
+    both = [o["k"] for o in apply_common_filters([obj, other], [f1, f2])]
+    swapped = [o["k"] for o in apply_common_filters([obj, other], [f2, f1])]
+    twice = [o["k"] for o in apply_common_filters([obj, other], [f1, f1])]
+    fset = FilterSet([f1, f2])
+    through_set = [o["k"] for o in apply_common_filters([obj, other], fset)]
+    V.reached()
+    e1 = any(ref_eval(OPS[o1], x, v1) for x in vals)
+    e2 = any(ref_eval(OPS[o2], x, v2) for x in vals)
+    exp = [0] if (e1 and e2) else []
+    return both == exp and swapped == exp and through_set == exp and twice == ([0] if e1 else [])
+
+
 # ---- timestamp strings are compared as instants (object property is a datetime, filter value a string in any legal spelling)
 INSTANTS = [(0, 0), (0, 500000), (0, 935000), (1, 0), (0, 100)]        # (second, microsecond)
 SPELL = ["2020-03-01T12:00:0%d%sZ"]
